@@ -3,9 +3,11 @@
 #  (1) the patch applies, (2) the repository's stable tests still pass with it, (3) the demo passes
 #  on the pristine tree and fails with the patch. Writes /verif/seeded/<Cxx>-<n>/{patch.diff,demo*,notes.md,confirm.log}
 id=$1; n=$2
-src=/tmp/seed/$id/_seed
-out=/verif/seeded/$id-$n
-wt=/tmp/confirm/$id-$n
+# optional: SEED_SRC=<dir with patchN.diff/demoN_test.go/notes.md> SEED_OUT_N=<number used in /verif/seeded/<id>-<N>>
+src=${SEED_SRC:-/tmp/seed/$id/_seed}
+outn=${SEED_OUT_N:-$n}
+out=/verif/seeded/$id-$outn
+wt=/tmp/confirm/$id-$outn
 mkdir -p $out /tmp/confirm
 cp $src/patch$n.diff $out/patch.diff
 cp $src/demo$n* $out/ 2>/dev/null
@@ -15,7 +17,7 @@ git -C /repo worktree remove --force $wt >/dev/null 2>&1
 git -C /repo worktree add -q --detach $wt HEAD || exit 2
 demo=$(ls $src/demo$n*_test.go 2>/dev/null | head -1)
 case $id in
-  C17) if [ $n = 1 ]; then dir=go/conformance/test-write-conformance; else dir=go/conformance/test-read-conformance; fi;;
+  C17) if grep -q "test-write-conformance\|jsonToMCAP\|WriteMatrix\|Writer" $demo 2>/dev/null && ! grep -q "readStreamed\|ReadMatrix" $demo; then dir=go/conformance/test-write-conformance; else dir=go/conformance/test-read-conformance; fi;;
   C18) dir=go/ros;;
   C19) dir=go/ros/ros1msg;;
   *) dir=go/mcap;;
@@ -27,11 +29,11 @@ TAGS=""
 cp $demo $wt/$dir/
 echo "== demo on pristine tree ($dir)" >> $log
 rundemo >> $log; pristine=$(tail -3 $log | grep -c '^ok')
-(cd $wt && git apply $out/patch.diff) || { echo "PATCH DOES NOT APPLY" >> $log; echo "$id-$n: patch does not apply"; exit 1; }
+(cd $wt && git apply $out/patch.diff) || { echo "PATCH DOES NOT APPLY" >> $log; echo "$id-$outn: patch does not apply"; exit 1; }
 echo "== demo with the change" >> $log
 rundemo >> $log; mutated=$(tail -3 $log | grep -c '^FAIL')
 rm -f $wt/$dir/$(basename $demo)
 echo "== repository baseline tests with the change (guard off)" >> $log
 python3 /verif/tools/baseline.py $wt >> $log 2>&1; base=$?
 git -C /repo worktree remove --force $wt
-echo "$id-$n: demo_pristine_ok=$pristine demo_mutant_fails=$mutated baseline_rc=$base" | tee -a $log
+echo "$id-$outn: demo_pristine_ok=$pristine demo_mutant_fails=$mutated baseline_rc=$base" | tee -a $log
